@@ -652,10 +652,16 @@ def gen_class(rng, name, T, shape):
 # ---------------------------------------------------------------------------------------
 # stretch: tuples of literals, enums with payloads, nested patterns, bindings
 
-def rand_scalar_pat(rng, fn, T, depth):
-    """random refutable/irrefutable pattern of a scalar or compound type"""
-    r = rng.random()
-    if r < 0.3:
+def all_wild(p):
+    return p[0] == "wild" or (p[0] == "tuple" and all(all_wild(q) for q in p[1]))
+
+
+def rand_pat(rng, fn, T, depth, wild_p=0.3, bind=None):
+    """random pattern of type T (literal / alternative / wildcard / tuple / constructor, nested).
+    bind: [name] -> the first Int32 position met becomes a binding of that name (then emptied)."""
+    if bind and T == "Int32" and rng.random() < 0.6:
+        return ("bind", bind.pop())
+    if depth > 0 and rng.random() < wild_p:
         return ("wild",)
     if T == "Bool":
         return ("lit", rng.random() < 0.5)
@@ -667,52 +673,83 @@ def rand_scalar_pat(rng, fn, T, depth):
         return mk_pat(sorted(set(rng.choice([0x61, 0x62, 0, 0x10FFFF]) for _ in range(rng.randint(1, 2)))))
     if T.startswith("("):
         ts = split_top(T[1:-1])
-        return ("tuple", [rand_scalar_pat(rng, fn, t, depth + 1) for t in ts])
+        while True:
+            p = ("tuple", [rand_pat(rng, fn, t, depth + 1, wild_p, bind) for t in ts])
+            if not all_wild(p):
+                return p
     decl = fn.enums[T]
     vi = rng.randrange(len(decl))
     if is_simple_enum(decl):
         if rng.random() < 0.3 and len(decl) > 1:
             return ("alt", [("ctor", T, v, []) for v in sorted(rng.sample(range(len(decl)), 2))])
         return ("ctor", T, vi, [])
-    return ("ctor", T, vi, [rand_scalar_pat(rng, fn, t, depth + 1) for t in decl[vi][1]])
+    if bind:
+        withint = [i for i, (_, fts) in enumerate(decl) if any("Int32" in ft for ft in fts)]
+        if withint:
+            vi = rng.choice(withint)
+    return ("ctor", T, vi, [rand_pat(rng, fn, t, depth + 1, wild_p, bind) for t in decl[vi][1]])
 
 
-TUPLE_SHAPES = ["lits", "alts_inside", "nested", "guardless_wild_rows"]
-PAYLOAD_SHAPES = ["flat", "nested", "option", "bindings"]
+def has_bind(p, name):
+    if p[0] == "bind":
+        return p[1] == name
+    if p[0] in ("alt", "tuple"):
+        return any(has_bind(q, name) for q in p[1])
+    if p[0] == "ctor":
+        return any(has_bind(q, name) for q in p[3])
+    return False
+
+
+TUPLE_SHAPES = ["lits", "alts_inside", "nested", "wild_rows", "bindings"]
+PAYLOAD_SHAPES = ["flat", "nested", "option", "bindings", "cover_by_variants"]
+
+
+def rows(rng, fn, T, shape, n):
+    arms = []
+    for i in range(n):
+        bind = ["y"] if shape == "bindings" and (i == 0 or rng.random() < 0.4) else None
+        p = rand_pat(rng, fn, T, 0, 0.15 if shape == "nested" else 0.3, bind)
+        tries = 0
+        while shape == "bindings" and i == 0 and not has_bind(p, "y") and tries < 50:
+            tries += 1
+            p = rand_pat(rng, fn, T, 0, 0.3, ["y"])
+        v = ("bound", "y") if has_bind(p, "y") else 0
+        if shape == "alts_inside" and rng.random() < 0.5 and v == 0:
+            p = ("alt", [p, rand_pat(rng, fn, T, 0)])
+        arms.append(Arm(p, v))
+    return arms
 
 
 def gen_tuple(rng, name, shape):
     scal = ["Int32", "Bool", "UInt8", "Char", "Int64"]
     if shape == "nested":
         T = "(%s, (%s, %s))" % (rng.choice(scal), rng.choice(["Bool", "Int32"]), rng.choice(scal))
+        if rng.random() < 0.4:
+            T = "((%s, %s), (Bool, (Int32, %s)))" % (rng.choice(scal), rng.choice(scal), rng.choice(scal))
+    elif shape == "bindings":
+        T = "(Int32, %s)" % rng.choice(["Bool", "Int32", "(Bool, Int32)"])
     else:
         T = "(" + ", ".join(rng.choice(scal) if i else rng.choice(["Int32", "Bool"]) for i in range(rng.randint(2, 3))) + ")"
-    arms = []
-    fn = MatchFn(name, T, arms, shape)
-    for i in range(rng.randint(2, 5)):
-        p = rand_scalar_pat(rng, fn, T, 0)
-        if p == ("wild",):
-            continue
-        if shape == "alts_inside" and rng.random() < 0.5:
-            p = ("alt", [p, rand_scalar_pat(rng, fn, T, 0)])
-            p = ("alt", [q for q in p[1] if q != ("wild",)] or [p[1][0]])
-            if len(p[1]) == 1:
-                p = p[1][0]
-        arms.append(Arm(p, 0))
-    arms.append(Arm(("wild",), 0))
-    for i, a in enumerate(arms):
-        a.value = i + 1
-    arms[-1].value = 0
+    fn = MatchFn(name, T, [], shape)
+    fn.arms += rows(rng, fn, T, shape, rng.randint(2, 5))
+    if shape == "wild_rows":
+        ts = split_top(T[1:-1])
+        fn.arms.insert(rng.randint(0, len(fn.arms)), Arm(("tuple", [("wild",)] * len(ts)), 0))
+    fn.arms.append(Arm(("wild",), 0))
+    for i, a in enumerate(fn.arms):
+        if isinstance(a.value, int):
+            a.value = i + 1
+    if isinstance(fn.arms[-1].value, int):
+        fn.arms[-1].value = 0
     return fn
 
 
 def gen_payload(rng, name, shape):
     en = "P_" + name
-    arms = []
-    fn = MatchFn(name, en, arms, shape)
+    fn = MatchFn(name, en, [], shape)
     scal = ["Int32", "Bool", "UInt8", "Int64", "Char"]
     if shape == "option":
-        inner = rng.choice(["Int32", "Bool", "(Int32, Bool)"])
+        inner = rng.choice(["Int32", "Bool", "(Int32, Bool)", "UInt8", "Char"])
         en = "Option[%s]" % inner
         fn.T = en
         fn.enums[en] = [("Some", [inner]), ("None", [])]
@@ -723,34 +760,26 @@ def gen_payload(rng, name, shape):
         decl = []
         for i in range(nv):
             k = rng.randint(0, 2)
-            fts = [rng.choice(scal + ([sub] if shape == "nested" else [])) for _ in range(k)]
+            fts = [rng.choice(scal + ([sub, sub] if shape == "nested" else [])) for _ in range(k)]
             if shape == "nested" and i == 0:
-                fts = ["(Int32, %s)" % sub]
+                fts = ["(Int32, %s)" % sub] + ([rng.choice(scal)] if rng.random() < 0.5 else [])
+            if shape == "bindings" and i == 0:
+                fts = ["Int32"] + ([rng.choice(scal)] if rng.random() < 0.5 else [])
             decl.append(("W%d" % i, fts))
         if all(len(f) == 0 for _, f in decl):
             decl[0] = ("W0", ["Int32"])
         fn.enums[en] = decl
     decl = fn.enums[fn.T]
-    for i in range(rng.randint(2, 5)):
-        p = rand_scalar_pat(rng, fn, fn.T, 0)
-        if p == ("wild",):
-            continue
-        arms.append(Arm(p, 0))
-    if shape == "bindings":
-        # bind an Int32 field and return it
-        cands = [(vi, fi) for vi, (_, fts) in enumerate(decl) for fi, ft in enumerate(fts) if ft == "Int32"]
-        if cands:
-            vi, fi = rng.choice(cands)
-            sub = [("wild",)] * len(decl[vi][1])
-            sub[fi] = ("bind", "y")
-            arms.insert(rng.randint(0, len(arms)), Arm(("ctor", fn.T, vi, sub), ("bound", "y")))
+    fn.arms += rows(rng, fn, fn.T, shape, rng.randint(2, 5))
     # close the match: one arm per variant with wildcards (no `_`), or a wildcard
-    if rng.random() < 0.5:
-        for vi, (_, fts) in enumerate(decl):
-            arms.append(Arm(("ctor", fn.T, vi, [("wild",)] * len(fts)), 0))
+    if shape == "cover_by_variants" or rng.random() < 0.4:
+        order = list(range(len(decl)))
+        rng.shuffle(order)
+        for vi in order:
+            fn.arms.append(Arm(("ctor", fn.T, vi, [("wild",)] * len(decl[vi][1])), 0))
     else:
-        arms.append(Arm(("wild",), 0))
-    for i, a in enumerate(arms):
+        fn.arms.append(Arm(("wild",), 0))
+    for i, a in enumerate(fn.arms):
         if isinstance(a.value, int):
             a.value = i + 1
     return fn
